@@ -503,7 +503,7 @@ def run(tier, seed, t0, only=None):
             for chunk in [seeds[i:i + 2] for i in range(0, len(seeds), 2)]:
                 tasks.append(dict(mod='vlib.props.c07', fn='check_predicates', kw=dict(decl_idx=di, seeds=chunk),
                                   backend=be, timeout=1800, name=f'{be}:decl{di}:seeds{chunk[0]}..'))
-    ch_timeout = 250 if tier == 'quick' else 900
+    ch_timeout = 750 if tier == 'quick' else 1500  # a bound, not a cost (5-110 s)
     for f in ('prop_enumerate_int', 'prop_twos_complement', 'prop_int_to_bit_assignment', 'prop_bitfields_to_int'):
         tasks.insert(0, dict(mod='vlib.chrun', fn='ch_task',
                              kw=dict(module='vlib.ch.h07', func=f, timeout=ch_timeout, functions=FUNCS),
